@@ -25,6 +25,7 @@ type tgProp struct {
 }
 
 type tgCase struct {
+	Rev     bool                `json:"rev,omitempty"` // print properties (and choice alternatives) in reverse order
 	Types   map[string][]tgProp `json:"types"`
 	Finite  bool                `json:"finite"`
 	SelfReq bool                `json:"selfreq"`
@@ -111,6 +112,21 @@ func tgEval(cs tgCase) []core.Finding {
 			names = append(names, k)
 		}
 		sort.Strings(names)
+		if cs.Rev {
+			rt := map[string][]tgProp{}
+			for k, ps := range cs.Types {
+				var r []tgProp
+				for i := len(ps) - 1; i >= 0; i-- {
+					p := ps[i]
+					if p.K == "choice" {
+						p.T, p.U = p.U, p.T
+					}
+					r = append(r, p)
+				}
+				rt[k] = r
+			}
+			cs.Types = rt
+		}
 		root := jschema.New("@main", tgText(cs.Types["0"]))
 		for _, k := range names {
 			if k == "0" {
@@ -188,16 +204,22 @@ func runC06(c *core.Ctx) error {
 		name, body string
 		sample     int // replay every k-th uninteresting graph
 	}
-	mk := func(n, mr, mo int, ring bool) string {
+	allModes := `{"plain", "optional", "nullable", "array"}`
+	mkx := func(n, mr, mo int, ring bool, modes string, fat int) string {
 		r := "FALSE"
 		if ring {
 			r = "TRUE"
 		}
-		return fmt.Sprintf("SPECIFICATION Spec\nCONSTANTS\n  N = %d\n  MaxRoot = %d\n  MaxOther = %d\n  Ring = %s\nINVARIANTS Theorem FixIsFixpoint NoRefsAreFinite Emit\nCHECK_DEADLOCK FALSE\n", n, mr, mo, r)
+		return fmt.Sprintf("SPECIFICATION Spec\nCONSTANTS\n  N = %d\n  MaxRoot = %d\n  MaxOther = %d\n  Ring = %s\n  ModesUsed = %s\n  FatTypes = %d\nINVARIANTS Theorem FixIsFixpoint NoRefsAreFinite Emit\nCHECK_DEADLOCK FALSE\n", n, mr, mo, r, modes, fat)
 	}
-	cfgs := []cfgT{{"TypeGraph_3_2_1.cfg", mk(3, 2, 1, false), 1}, {"TypeGraph_ring4.cfg", mk(4, 1, 1, true), 1}, {"TypeGraph_ring5.cfg", mk(5, 1, 1, true), 1}}
+	mk := func(n, mr, mo int, ring bool) string { return mkx(n, mr, mo, ring, allModes, 0) }
+	// 4 types, requirement edges only (plain references and choices), one non-root type as large as the root:
+	// the graphs where a memoising or order-dependent walk goes wrong
+	cfgs := []cfgT{{"TypeGraph_3_2_1.cfg", mk(3, 2, 1, false), 1}, {"TypeGraph_ring4.cfg", mk(4, 1, 1, true), 1}, {"TypeGraph_ring5.cfg", mk(5, 1, 1, true), 1},
+		{"TypeGraph_4_plain_fat1.cfg", mkx(4, 2, 1, false, `{"plain"}`, 1), 1}}
 	if c.Thorough() {
-		cfgs = append(cfgs, cfgT{"TypeGraph_3_2_2.cfg", mk(3, 2, 2, false), 7}, cfgT{"TypeGraph_ring6.cfg", mk(6, 1, 1, true), 3}, cfgT{"TypeGraph_4_1_1.cfg", mk(4, 1, 1, false), 1})
+		cfgs = append(cfgs, cfgT{"TypeGraph_3_2_2.cfg", mk(3, 2, 2, false), 7}, cfgT{"TypeGraph_ring6.cfg", mk(6, 1, 1, true), 3}, cfgT{"TypeGraph_4_1_1.cfg", mk(4, 1, 1, false), 1},
+			cfgT{"TypeGraph_4_plainopt_fat1.cfg", mkx(4, 2, 1, false, `{"plain", "optional"}`, 1), 2}, cfgT{"TypeGraph_4_plain_fat2.cfg", mkx(4, 2, 1, false, `{"plain"}`, 2), 3})
 	}
 	for _, cf := range cfgs {
 		var cases []tgCase
@@ -232,6 +254,11 @@ func runC06(c *core.Ctx) error {
 				c.Nontrivial(cf.name + tgDump(cs))
 			}
 			c.Report(cs, tgEval(cs))
+			// the verdict may not depend on the order in which properties and alternatives are written
+			cr := cs
+			cr.Rev = true
+			c.CountEval(1)
+			c.Report(cr, tgEval(cr))
 		})
 		c.Set("graphs_replayed_"+cf.name, len(cases))
 		if cf.name == "TypeGraph_ring4.cfg" {
